@@ -1,6 +1,7 @@
 """C14 — sniproxy: SNI sniffing is exact and consumes nothing (DESIGN.md §7 C14)."""
 import json
 
+import code_tie
 import vlib
 
 META = {
@@ -24,6 +25,7 @@ META = {
 MODEL = ["theories/Sni/HelloCorr.vo"]
 PROOFS = ["theories/Props/C14.vo"]
 STATEMENT_FILES = ["theories/Props/C14.v", "theories/Sni/HelloGen.v"]
+SEMANTIC_TIE = code_tie.functions("C14")   # Go bodies proved equal to the model (Props/C14Code.v)
 
 KIND = {"ok": 0, "eof": 1, "full": 2, "nottls": 3}
 RECORD_LIMIT = 16384
@@ -202,6 +204,7 @@ def run(ck):
         ck.discharged = list(ck.obligations)
     if ck.thorough and proofs_ok:
         ck.coqchk(["Verif.Props.C14"])
+    code_tie.run(ck, "C14")
 
     binp = ck.build_harness("c14")
     cases = []
